@@ -4,12 +4,15 @@ from pyvc.spec import *   # noqa
 
 
 def declare(spec):
+    declare_iterfunc(spec)
     _declare(spec)
     declare_start(spec)
     declare_reap(spec)
 
 
 def _declare(spec):
+    spec.ghost('sw_selected', List(Ref('Watcher')))
+    spec.local_ghosts.add('sw_selected')
     spec.local_ghosts.add('loop_cbs')
     spec.ghost('loop_cbs', List(INT))        # callbacks handed to loop.add_callback: 1 = close sockets, 2 = loop.stop
     spec.add(Contract('$CtlHandle.stop', params={'self': Ref('CtlHandle')}, trusted=True,
@@ -33,10 +36,16 @@ def _declare(spec):
     SAMEDIR = "same_field('Arbiter.watchers', 'Arbiter._watchers_names')"
     spec.add(Contract(
         'circus.arbiter:Arbiter._stop_watchers', kind='coroutine', rely='arb',
-        params={'close_output_streams': BOOL, 'watcher_iter_func': VAL},
+        params={'close_output_streams': BOOL, 'watcher_iter_func': Ref('IterFunc')},
         defaults={'close_output_streams': False, 'watcher_iter_func': None},
-        requires=['excl', ALLWF, 'is_none(watcher_iter_func)', 'dir1(self)'],
-        ensures=[('every-watcher-stopped', ALLSTOPPED), SAMEDIR, 'excl', ALLWF,
+        requires=['excl', ALLWF, 'isnull(watcher_iter_func) or watcher_iter_func.owner == self', 'dir1(self)'],
+        # sw_selected: the list the selection callable (or iter_watchers) REALLY returned
+        ghost_at={'iter_watchers': ['sw_selected = call_result'], 'watcher_iter_func': ['sw_selected = call_result']},
+        ensures=[('every-watcher-stopped', 'implies(isnull(watcher_iter_func), %s)' % ALLSTOPPED),
+                 ('every-selected-watcher-stopped',
+                  "forall(INT, lambda j: implies(0 <= j and j < length(sw_selected), sw_selected[j]._status == 'stopped' and "
+                  "len(sw_selected[j].processes) == 0))"),
+                 SAMEDIR, 'excl', 'implies(isnull(watcher_iter_func), %s)' % ALLWF,
                  "same_field('Arbiter._stopping', 'Arbiter.loop', 'Arbiter._provided_loop', 'Arbiter.ctrl', "
                  "'Arbiter.sockets', 'Arbiter.evpub_socket')"],
         modifies=['*']))
@@ -65,6 +74,33 @@ def _declare(spec):
         modifies=['*']))
 
 
+def declare_iterfunc(spec):
+    """the watcher_iter_func handed to _start_watchers / _stop_watchers by the start / stop / restart commands: a callable
+    returning the selected watchers ordered by priority.  The one producer (the closure in commands/restart.py) is
+    verified against this contract."""
+    spec.Class('IterFunc', fields={'owner': Ref('Arbiter')})
+    SORTED = ("forall(INT, INT, lambda a, b: implies(0 <= a and a < b and b < length(result), "
+              "ite(reverse, result[a].priority >= result[b].priority, result[a].priority <= result[b].priority)))")
+    spec.add(Contract('$IterFunc.__call__', params={'self': Ref('IterFunc'), 'reverse': BOOL}, defaults={'reverse': True},
+                      ret=List(Ref('Watcher')), trusted=True, modifies=[],
+                      ensures=[SORTED,
+                               "forall(INT, INT, lambda a, b: implies(0 <= a and a < b and b < length(result), result[a] != result[b]))",
+                               "forall(INT, lambda j: implies(0 <= j and j < length(result), not isnull(result[j]) and "
+                               "contains(self.owner.watchers, result[j])))"],
+                      note='A-ITERFUNC: contract of the watcher selection callable; its only producer, the closure '
+                           'watcher_iter_func in commands/restart.py, is verified to return a priority-sorted permutation of '
+                           'the selected watchers (which come from arbiter.iter_watchers())'))
+    spec.add(Contract(
+        'circus.commands.restart:execute_watcher_start_stop_restart.watcher_iter_func',
+        params={'reverse': BOOL, 'watchers': List(Ref('Watcher'))}, defaults={'reverse': True},
+        ret=List(Ref('Watcher')), modifies=[],
+        ensures=[('sorted-by-priority', SORTED), 'length(result) == length(watchers)',
+                 "forall(INT, lambda j: implies(0 <= j and j < length(result), contains(watchers, result[j])))",
+                 "forall(INT, lambda i: implies(0 <= i and i < length(watchers), contains(result, watchers[i])))",
+                 "implies(distinct(watchers), forall(INT, INT, lambda a, b: implies(0 <= a and a < b and "
+                 "b < length(result), result[a] != result[b])))"]))
+
+
 def declare_start(spec):
     """C19 (arbiter half): watchers are started one after the other in descending priority, warmup_delay apart."""
     iw = spec.contracts['circus.arbiter:Arbiter.iter_watchers']
@@ -90,9 +126,10 @@ def declare_start(spec):
                "implies(self.watchers[i]._status == 'stopped', len(self.watchers[i].processes) == 0)))")
     SPKEEP = spec.consts['$SPKEEP']
     spec.add(Contract(
-        'circus.arbiter:Arbiter._start_watchers', kind='coroutine', rely='arb', params={'watcher_iter_func': VAL},
-        defaults={'watcher_iter_func': None},
-        requires=['excl', ALLLIFE, 'is_none(watcher_iter_func)', 'dir1(self)', 'self.warmup_delay >= 0'],
+        'circus.arbiter:Arbiter._start_watchers', kind='coroutine', rely='arb',
+        params={'watcher_iter_func': Ref('IterFunc')}, defaults={'watcher_iter_func': None},
+        requires=['excl', ALLLIFE, 'isnull(watcher_iter_func) or watcher_iter_func.owner == self', 'dir1(self)',
+                  'self.warmup_delay >= 0'],
         ensures=[('priority-order-and-pacing', ORDER), SPKEEP, 'excl',
                  "same_field('Arbiter.watchers', 'Arbiter._watchers_names')", 'clock >= old(clock)'],
         raises={'RuntimeError': []},
